@@ -214,7 +214,11 @@ CHECKS = {
         "=> the result is independent of the global generator), run_det, pool_repeat_equal, crs_private / crs_deterministic / repeat_all_equal (check_random_state(seed, multiplier) modelled from the caller's side and compared with the real function). 121 generated obligations "
         "over the RNG draw-site tables of 64 classes. Dynamic tie: twin objects, repeated calls and three different np.random.seed states must agree for every class "
         "x configuration, also with RandomState instances as random_state (caller's instance unchanged, repeat equal) and for a used object vs a fresh one; query_history_free + 32 generated "
-        "query_<Class>_historyFree obligations (read-before-write analysis of the regenerated effect summaries of every pool query).",
+        "query_<Class>_historyFree obligations (read-before-write analysis of the regenerated effect summaries of every pool query). Source-to-Lean tie: "
+        "harness/translate/pyrng.py re-translates skactiveml.utils.check_random_state into Gen/RngGen.lean on every run (generator objects with identity); "
+        "check_random_state_eq proves it equal to checkRandomState for all inputs, gen_crs_private / gen_crs_deterministic / gen_crs_seed are stated about the "
+        "generated text, skarnggendriver executes it on the calls made to the real function. One caller-owned generator handed to two fresh budget managers / "
+        "stream strategies (also with update before the first query) must give identical runs.",
         design="Part I §I.2, Part II §4 C06",
         technique="Lean 4 proof over an RNG-source abstraction + AST translation validated dynamically",
         note="Trusted: Lean kernel (axioms audited); RNG-site tables over-approximate the Python semantics (validated dynamically); third-party estimators are deterministic "
